@@ -317,16 +317,19 @@ Proof.
   - exists x, v. split; [apply (vertex_values_lookup K x v Hwf); exact Hin | exact E].
 Qed.
 
+Lemma cone_point_of_gt : forall m, (m < cone_point_of m)%Z.
+Proof. intros m. unfold cone_point_of, null_vertex. destruct (Z.eqb (m + 1) (-1)); lia. Qed.
+
 Lemma cone_point_gt_vertex : forall vmin (K : qcplx) x v, lookup K [x] = Some v -> (x < ext_cone_point vmin K)%Z.
 Proof.
   intros vmin K x v H. unfold ext_cone_point.
   assert (Hle : (x <= ext_maxvert vmin (vertex_values K))%Z).
   { apply ext_maxvert_ge with v. apply vertex_values_in. apply lookup_in. exact H. }
-  lia.
+  pose proof (cone_point_of_gt (ext_maxvert vmin (vertex_values K))). lia.
 Qed.
 
 Lemma cone_point_gt_vmin : forall vmin (K : qcplx), (vmin < ext_cone_point vmin K)%Z.
-Proof. intros vmin K. unfold ext_cone_point. pose proof (ext_maxvert_ge_vmin vmin (vertex_values K)). lia. Qed.
+Proof. intros vmin K. unfold ext_cone_point. pose proof (ext_maxvert_ge_vmin vmin (vertex_values K)). pose proof (cone_point_of_gt (ext_maxvert vmin (vertex_values K))). lia. Qed.
 
 (* ------------------------------------------------------------------ (4) the extended filtration is the cone
    filtration: lower-star ascending on K, upper-star descending on the coned simplices *)
@@ -841,7 +844,7 @@ Proof.
   intros Hspec vmin K Hwf Hcl k.
   pose proof (wf_K1 vmin K Hwf Hcl) as W. pose proof (closed_K1 vmin K Hcl) as C.
   destruct (Hspec Q qlt qlt_strict_weak _ W C) as [Hk _].
-  unfold extend_filtration. cbn [fst].
+  unfold extend_filtration, extend_filtration_with. cbn [fst].
   unfold ext_min, ext_max, ext_cone_point in Hk. rewrite Hk.
   exact (in_keys1 vmin K k).
 Qed.
@@ -856,3 +859,26 @@ Print Assumptions cone_point_gt_vertex.
 Print Assumptions extended_is_cone_filtration.
 Print Assumptions extended_decodes.
 Print Assumptions extended_keys.
+
+(* ------------------------------------------------------------------ the cone point is a legal fresh vertex: larger than every
+   vertex of K (cone_point_gt_vertex) and different from the reserved null_vertex() = -1.  The code as it stood before the
+   repair (maxvert + 1 unconditionally) used null_vertex() itself when the largest vertex was -2. *)
+Lemma cone_point_not_null : forall vmin (K : qcplx), ext_cone_point vmin K <> null_vertex.
+Proof.
+  intros vmin K. unfold ext_cone_point, cone_point_of, null_vertex.
+  destruct (Z.eqb (ext_maxvert vmin (vertex_values K) + 1) (-1)) eqn:E; lia.
+Qed.
+
+Lemma cone_point_unrepaired_refuted : exists (K : qcplx) (vmin : Z), wf K /\ closed K /\
+  cone_point_unrepaired (ext_maxvert vmin (vertex_values K)) = null_vertex /\
+  In [null_vertex] (map fst (fst (extend_filtration_unrepaired vmin K))).
+Proof.
+  exists [([(-2)%Z], 0#1)], (-2147483648)%Z. split; [|split; [|split]].
+  - split; [cbn; repeat constructor; intros []|]. intros s [H|[]]. cbn in H. subst s. split; [discriminate | repeat constructor].
+  - intros s t [H|[]] St Nt. cbn in H. subst s. left. cbn.
+    inversion St as [|? ? ? S1|? ? ? S1]; subst; inversion S1; subst; [reflexivity | congruence].
+  - vm_compute. reflexivity.
+  - vm_compute. auto.
+Qed.
+Print Assumptions cone_point_not_null.
+Print Assumptions cone_point_unrepaired_refuted.
